@@ -868,7 +868,9 @@ def diff_helper(func, arr, *args, **kwargs):
                 "Quantities with units of Fahrenheit or Celsius "
                 "cannot be multiplied, divided, subtracted or added."
             )
-        ret_units = delta_degC
+        # K and delta_degC data give differences in delta_degC; other absolute
+        # or difference scales (R, delta_degF, mK, ...) keep their own degree size
+        ret_units = delta_degC if u == delta_degC else u
     else:
         ret_units = u
     return func._implementation(np.asarray(arr), *args, **kwargs) * ret_units
